@@ -41,7 +41,7 @@ for pid in sorted(CHECKS):
         "replay_cmd_template": "./check replay {path}",
         "engine": "sim (engine A)" + (" + mt (engine B, shuttle)" if pid in ("C01", "C02") and os.path.isdir(os.path.join(V, "mt")) else ""),
         "level_claimed": {"category": level, "text": text, "design_ref": "DESIGN.md §" + ref},
-        "level_note": "Trusted base: the simulator in /verif/sim (scripted children, generation-strict executor, oracles), rustc, and the assumption that children follow the scripted-leaf language (no wake from Drop, no re-entrant polling). Sampling of schedules/faults, not enumeration (C02: crash points are enumerated per sampled scenario).",
+        "level_note": "Trusted base: the simulator in /verif/sim (scripted children, generation-strict executor, reference-model oracles; no unsafe code), rustc, and the assumption that children follow the scripted-leaf language (finite scripts of Pending/Ready/Item/End steps, wakes between polls, inside polls, from another thread at lock boundaries, from destructors; no re-entrant polling of the combinator from a waker). Sampling of schedules/faults, not enumeration (C02: crash points are enumerated completely per sampled scenario). Sensitivity: 43 own mutants and 112 independently seeded property-breaking changes, see DESIGN.md section 11.",
         "technique": ("deterministic simulation with fault injection: seeded schedule/fault search with reference-model oracles over the event log" + ("; complete crash-point enumeration per sampled scenario" if pid == "C02" else "") + ("; shuttle-controlled thread interleavings" if pid in ("C01", "C02") else "")),
     })
 na = [{"property_id": k, "reason": v} for k, v in NA.items()]
@@ -63,7 +63,7 @@ m = {
  ],
  "checks": checks,
  "not_applicable": na,
- "notes": "All checks: ./check <ID> [--tier quick|thorough] [--seed N]; VERIF_SEED/VERIF_TIER honoured; exit 0/1/2 = held / violation / harness error. Known findings: /verif/known_findings.json. Replays: /verif/replays/.",
+ "notes": "All checks: ./check <ID> [--tier quick|thorough] [--seed N]; VERIF_SEED/VERIF_TIER honoured; exit 0/1/2 = held / violation / harness error (build failure, nondeterminism, driver exception). Known findings: /verif/known_findings.json (no open entry; two defects found by the machinery were repaired with fix: commits 3d2d4eb and ce43740, replay files in /verif/findings/). New violations: replay files in /verif/replays/, re-run with ./check replay <file>. Sensitivity suites: ./check mutants [--seeded] (scratch worktrees, never /repo). Determinism proof: ./check selftest.",
 }
 if os.path.isdir(os.path.join(V, "mt")):
     m["engines"].append({"name": "mt", "path": "/verif/mt", "serves_properties": ["C01", "C02"], "kind_free_text": "engine B: shuttle-controlled threads (poller + foreign wakers) over the real crate built through a shadow manifest with shuttle::sync::Mutex behind the hook"})
